@@ -24,3 +24,5 @@ CONTRACTS['clustering_coef_bu'] = Contract(
     ghost_after={'k = len(V)': "assume(lemma_nbrsum(G, V, k, u, n0))"},
     ensures=[('coefficient-is-the-fraction-of-connected-neighbour-pairs', "forall(lambda x: implies(inr(x, n0), result()[x] == %s))" % _DEF),
              ('argument-untouched', "unchanged('G')")])
+
+CONTRACTS['clustering_coef_bu'].inputs = [('G', 'G0', 'mat', 'n0c')]
